@@ -40,6 +40,7 @@ type solver struct {
 	bin        string
 	args       []string
 	errors     int
+	pushed     bool
 	lastErr    string
 }
 
@@ -92,9 +93,16 @@ func (s *solver) reset() {
 	s.transcript.Reset()
 	s.defined = make(map[int32]bool)
 	s.declared = make(map[string]bool)
-	s.send("(reset)")
-	s.send("(set-option :print-success false)")
-	s.send(fmt.Sprintf("(set-option :timeout %d)", s.timeoutMs))
+	if !s.pushed {
+		s.send("(reset)")
+		s.send("(set-option :print-success false)")
+		s.send(fmt.Sprintf("(set-option :timeout %d)", s.timeoutMs))
+	} else {
+		io.WriteString(s.in, "(pop 1)\n")
+		s.transcript.WriteString("(set-option :print-success false)\n")
+	}
+	io.WriteString(s.in, "(push 1)\n")
+	s.pushed = true
 }
 
 // define makes sure t and all its sub-terms are defined in the solver.
